@@ -2,13 +2,16 @@ def _proj(op, line):
     w = line.split()
     if w and w[0] in ("ok", "err"):
         return "nopanic"
+    if op.startswith("v ") or op.startswith("ddict "):
+        # family valid (dictionary-directed messages covering every field type of the shipped dictionaries): only a panic counts here
+        return "panic" if (w and w[0] == "panic") else "nopanic"
     if op.startswith("round ") and w and w[0] == "obs":
         return "nopanic"      # family sockj: the round is judged by the monitor (no panic, still serving)
     return line
 
 PROPS["C09"] = {
-    "families": {"robust": {"quick": 120, "thorough": 6000}, "sockj": {"quick": 4, "thorough": 100}},
-    "mon_clauses": ["C09."],
+    "families": {"robust": {"quick": 120, "thorough": 6000}, "sockj": {"quick": 4, "thorough": 100}, "valid": {"quick": 8, "thorough": 16}},
+    "mon_clauses": ["C09.", "no_panic"],
     "project": _proj,
     "independent_ops": True,
     "claim": "Theorems (Lean kernel) `… ≠ fault` / `isFault = false` about the panic-explicit models: the stream framer for every reader (C09_framer_total, C09_framer_no_fault), "
@@ -16,6 +19,7 @@ PROPS["C09"] = {
              "of ParseSettings (C09_settings_total), with decided witnesses that the pinned originals did fault (empty integer, BodyLength overflow, missing CheckSum, XMLDataLen, setting outside a section). "
              "Every entry point of the REAL code (parse with none/app/transport+app dictionaries + every typed getter, validate against shipped dictionaries, ParseSettings, "
              "datadictionary.ParseSrc, a session in six states fed raw bytes and then probed with a TestRequest) is run on hostile bytes under recover + timeout. "
+             "The dictionary-directed messages of the `valid` family (every message type and every field type of the nine shipped dictionaries, conforming and with single defects) are validated too: a panic of the validator is a C09 violation (`no_panic`). "
              "Partial: only the modelled index arithmetic is proved safe; nil-map / library panics elsewhere are reachable only by the generated runs. "
              "SAMPLED socket layer (family `sockj`): a real quickfix.NewAcceptor (two configured sessions) with a real initiator connected through the harness's TCP proxy receives raw hostile connections "
              "before and while the counterparty is connected: random bytes, truncated Logons, messages for unknown sessions (with and without sub/location IDs), huge / negative / empty / overflowing BodyLength, "
